@@ -61,6 +61,13 @@ Proof. reflexivity. Qed.
 Example C12_nonvacuous : beval 4104 Extracted.union_tag2 = Some 4105 /\ beval 4105 Extracted.union_untag2 = Some 4104.
 Proof. vm_compute. split; reflexivity. Qed.
 
+(** ... and the union rebuilds the Arc it releases, and the borrows it hands out, from the pointer it stores (defect F4
+    on the pinned tree: ArcUnion::drop used a pointer derived from a reference) *)
+Theorem C12_union_rebuilds_handles_from_its_stored_pointer :
+  forallb (fun s => prov_full (snd s)) (filter (fun s => String.eqb (fst (fst (fst s))) "arc_union.rs") Extracted.raw_sinks) = true /\
+  List.length (filter (fun s => String.eqb (fst (fst (fst s))) "arc_union.rs") Extracted.raw_sinks) = 4%nat.
+Proof. split; vm_compute; reflexivity. Qed.
+
 Check C12_tag_set_test_strip.
 Print Assumptions C12_data_address_is_even.
 Print Assumptions C12_tag_set_test_strip.
@@ -69,3 +76,4 @@ Print Assumptions C12_variant_is_remembered.
 Print Assumptions C12_accessors_report_the_variant.
 Print Assumptions C12_clone_keeps_variant_and_block.
 Print Assumptions C12_union_is_one_word.
+Print Assumptions C12_union_rebuilds_handles_from_its_stored_pointer.
